@@ -204,11 +204,18 @@ def run_property(pid, tier, seed):
         samples.append({'backend': be, 'obligation': name, 'status': o['status'], 'case': o['case'],
                         'detail': o['detail'][:200]})
     extra = {}
+    e1_funcs = sorted({o['sig'] for o in obs if o['backend'] == 'E1' and o['sig']})
+    e1_names = {f.split('[')[0] for f in e1_funcs}
+    def _short(f):
+        m, _, q = f.partition(':')
+        return q if q.startswith('TT.') else 'fn:' + q
+    extra['e1_functions_verified'] = e1_funcs
+    extra['e1_unverified_functions'] = sorted(f for f in meta.get('functions', []) if _short(f) not in e1_names and not f.endswith('.*') and not f.endswith(':*'))
     if hasattr(pmod, 'evidence_extra'):
         try:
-            extra = pmod.evidence_extra(obs, tier)
+            extra.update(pmod.evidence_extra(obs, tier))
         except Exception:
-            extra = {'evidence_extra_error': traceback.format_exc()[-500:]}
+            extra['evidence_extra_error'] = traceback.format_exc()[-500:]
     ev = {
         'property_id': pid, 'tier': tier, 'seed': seed, 'level': meta['level'],
         'coverage': dict({
@@ -224,7 +231,7 @@ def run_property(pid, tier, seed):
             'bounded_clauses': sorted({o['name'] for o in obs if o['backend'] != 'E1'}),
             'proved_clauses': sorted({o['name'] for o in obs if o['backend'] == 'E1' and o['status'] == OK}),
             'functions_under_contract': meta.get('functions', []),
-            'unverified_functions': meta.get('unverified', []),
+            'unverified_functions': extra['e1_unverified_functions'],
             'solver_time_s': by_backend.get('E1', {}).get('time_s', 0.0),
             'known_findings_hit': [k['text'] for (k, n) in known_hits.values()],
             'undecided': [o['name'] + ' [' + o['sig'] + ']' for o in undec][:50],
